@@ -236,6 +236,16 @@ def diff_fields(before, after):
 SVALS = [0, 1, 2, 3]
 PKS = [1, 2, 3, 4, 5, 6, 7]
 
+def drop_both_ends(ms, kv):
+    """one call must not give values for both ends of a self-relationship (contradictory arguments are C12's subject, not C13's)"""
+    out, seen = [], set()
+    for a, v in kv:
+        m = ms['attrs'][a]
+        if m['kind'] != 'scalar' and m['rev'] != a and m['rev'] in seen: continue
+        seen.add(a); out.append([a, v])
+    return out
+
+
 def gen_op(rng, w, pbad):
     ms = w.model_schema
     objs = w.objs
@@ -280,10 +290,14 @@ def gen_op(rng, w, pbad):
             if v is not None and v not in items: items.append(v)
         return sorted(items)
     r = rng.random()
-    if r < 0.07 and objs:
+    if r < 0.11 and objs:
         return {'k': 'flush'}, None
-    if r < 0.32 or not objs:
+    if r < 0.34 or not objs:
         e = rng.randrange(ms['nent'])
+        if not bad or rng.random() < 0.7:     # prefer an entity whose Required references can be satisfied
+            ok = [x for x in range(ms['nent']) if all(any(alive[i] for i in by_ent.get(ms['attrs'][ms['attrs'][a]['rev']]['ent'], []))
+                                                        for a in w.ent_attrs[x] if ms['attrs'][a]['kind'] == 'ref' and ms['attrs'][a]['req'])]
+            if ok: e = rng.choice(ok)
         vals = []
         for a in w.ent_attrs[e]:
             m = ms['attrs'][a]
@@ -298,6 +312,7 @@ def gen_op(rng, w, pbad):
                     vals.append([a, v])
             else:
                 if rng.random() < 0.45: vals.append([a, {'coll': coll_val(a, bad and rng.random() < 0.35)}])
+        vals = drop_both_ends(ms, vals)
         pk = None
         if not ms['autopk'][e] or rng.random() < 0.3:
             used = [o._pkval_ for i, o in enumerate(objs) if type(o) is w.classes[e] and o._pkval_ is not None and o._status_ != 'deleted' and o._status_ != 'cancelled']
@@ -306,10 +321,17 @@ def gen_op(rng, w, pbad):
             else: pk = free[0] if rng.random() < 0.7 else rng.choice(free)
         return {'k': 'create', 'e': e, 'pk': pk, 'vals': vals}, tag[0]
     live = [i for i in range(len(objs)) if alive[i]]
-    pool = list(range(len(objs))) if (bad and rng.random() < 0.25) else (live or list(range(len(objs))))
+    pool = list(range(len(objs))) if (bad and rng.random() < 0.15) else (live or list(range(len(objs))))
     o = rng.choice(pool)
     if not alive[o]: settag('dead-target')
-    if r < 0.47:
+    if r < 0.50:
+        if bad and live and rng.random() < 0.7:
+            # prefer an object that something else depends on (refusals and cascades)
+            def weight(i):
+                V = objs[i]._vals_ or {}
+                return sum(len(v) if isinstance(v, core.SetData) else (1 if isinstance(v, core.Entity) else 0) for v in V.values())
+            best = sorted(live, key=weight)[-max(1, len(live) // 3):]
+            o = rng.choice(best)
         return {'k': 'delete', 'o': o}, tag[0]
     e = w.classes.index(type(objs[o]))
     attrs = w.ent_attrs[e]
@@ -321,7 +343,7 @@ def gen_op(rng, w, pbad):
             if m['kind'] == 'scalar': kv.append([a, scalar_val(a, b, for_obj=o)])
             elif m['kind'] == 'ref': kv.append([a, ref_val(a, b)])
             else: kv.append([a, {'coll': coll_val(a, b)}])
-        return {'k': 'setm', 'o': o, 'kv': kv}, tag[0]
+        return {'k': 'setm', 'o': o, 'kv': drop_both_ends(ms, kv)}, tag[0]
     a = rng.choice(attrs)
     m = ms['attrs'][a]
     if m['kind'] == 'scalar': return {'k': 'set', 'o': o, 'a': a, 'v': scalar_val(a, bad, for_obj=o)}, tag[0]
